@@ -68,7 +68,7 @@ def run(ctx):
     chain, r2 = vf.tlc_generate("MC_IndexSegments", "MC_IndexSegments_chain", workers=4, timeout=900, seed=ctx.seed)
     ctx.add_mc(r2, "MC_IndexSegments_chain")
     chain = dedup(chain)
-    sim, r3 = vf.tlc_generate("MC_IndexSegments", "MC_IndexSegments_sim", simulate="num=%d" % ctx.q(12, 150),
+    sim, r3 = vf.tlc_generate("MC_IndexSegments", "MC_IndexSegments_sim", simulate="num=%d" % ctx.q(10, 40),
                               workers=ctx.q(1, 4), timeout=ctx.q(900, 2400), seed=ctx.seed)
     sim = dedup(sim)
     ctx.cov["tlc_runs"].append({"run": "MC_IndexSegments_sim (-simulate)", "generated": r3["generated"],
@@ -80,7 +80,7 @@ def run(ctx):
         ctx.cov["tlc_runs"].append({"run": "negative:" + bug, "outcome": "fails as required (%s)" % inv})
     vf.log("negative configs done")
     # 2. S->I: replay (a seeded sample of) the behaviours on the real index, I->S: TLC judges the answers
-    k_exh, k_chain = ctx.q(300, 6000), ctx.q(80, 600)
+    k_exh, k_chain = ctx.q(300, 2500), ctx.q(80, 300)
     sample = (rnd.sample(behs, min(k_exh, len(behs))) + rnd.sample(chain, min(k_chain, len(chain))) + sim)
     bf = ctx.path("behaviours.json")
     with open(bf, "w") as f:
@@ -89,7 +89,7 @@ def run(ctx):
     t1 = ctx.path("hist.ndjson")
     ctx.harness("index", ["hist", "--in", bf, "--out", t1, "--seed", ctx.seed], env=env, timeout=3000)
     t2 = ctx.path("long.ndjson")
-    ctx.harness("index", ["long", "--out", t2, "--seed", ctx.seed, "--n", ctx.q(4, 40), "--min", 30, "--max", 60,
+    ctx.harness("index", ["long", "--out", t2, "--seed", ctx.seed, "--n", ctx.q(4, 16), "--min", 30, "--max", 60,
                           "--every", ctx.q(7, 5)], env=env, timeout=3000)
     vf.log("harness done")
     sig = lambda rec, verdict: "%s:%s" % (verdict, rec.get("mode", "-"))
